@@ -352,7 +352,9 @@ func runC18(env *lib.Env, rep *lib.Report) {
 		if _, open := known["D26-catalog-writable"]; open && c18MutatesCatalog(q) {
 			f.Known = "D26-catalog-writable"
 		}
-		if fails[key] <= 2 {
+		if fails[key] <= 2 || f.Known != "" {
+			// (executions claimed by an open known finding are all handed to the report, which counts them under
+			// the finding; the counter of unexplained failures is for the others)
 			rep.AddFailure(f)
 		} else {
 			rep.FailCount++
